@@ -329,7 +329,7 @@ func rangeLemmas(r *Run, cfg rcConfig, items []rangeItem) {
 				if xv == nil {
 					return nil
 				}
-				g := &gadgetReplay{Kind: "gadget", Gadget: gadget, N: uint64(n), In: []string{xv.String()}, Expect: "accepted", Overrides: overridesFromModel(e, res.Model, seen)}
+				g := &gadgetReplay{Kind: "gadget", Gadget: gadget, N: replayN(gadget, n), In: []string{xv.String()}, Expect: "accepted", Overrides: overridesFromModel(e, res.Model, seen)}
 				g.Cfg = cfgc.replayCfg()
 				acc, msg := runGadgetReplay(g)
 				if !acc {
@@ -418,7 +418,7 @@ func completenessViolation(r *Run, res smt.Result, xname, gadget string, n int, 
 	if xv == nil {
 		return nil
 	}
-	g := &gadgetReplay{Kind: "gadget", Gadget: gadget, N: uint64(n), In: []string{xv.String()}, Expect: "rejected"}
+	g := &gadgetReplay{Kind: "gadget", Gadget: gadget, N: replayN(gadget, n), In: []string{xv.String()}, Expect: "rejected"}
 	g.Cfg = cfg.replayCfg()
 	acc, msg := runGadgetReplay(g)
 	if acc {
@@ -426,6 +426,14 @@ func completenessViolation(r *Run, res smt.Result, xname, gadget string, n int, 
 		return nil
 	}
 	return &Violation{What: fmt.Sprintf("%s(x, %d) under configuration %s rejects the in-range value x = %s (%s)", gadget, n, cfg, xv, msg), Replay: toMap(g), Outcome: "real constraint system (gnark r1cs builder + solver) not satisfied by the honest prover"}
+}
+
+// replayN: the LeadingZeros gadget is parameterised by the difficulty, the lemma by the width.
+func replayN(gadget string, n int) uint64 {
+	if gadget == "LeadingZeros" {
+		return uint64(64 - n)
+	}
+	return uint64(n)
 }
 
 func toMap(v any) map[string]any {
